@@ -125,11 +125,11 @@ fn main() {
         "float-pi" => stages::float_pi(geti(&m, "count", 1000) as u64, geti(&m, "seed", 1) as u64),
         "replay-sweep" => stages::replay_sweep(gets(&m, "file", "")),
         "replay-pi" => {
-            let (fr, off, ax) = (geti(&m, "frame", 0) as i32, geti(&m, "offset", 0), m.contains_key("only-axis"));
+            let (fr, off, ax, dc) = (geti(&m, "frame", 0) as i32, geti(&m, "offset", 0), m.contains_key("only-axis"), geti(&m, "decoy", 0) as u32);
             if m.contains_key("f32") {
-                stages::replay_pi::<f32>(gets(&m, "file", ""), fr, off, ax)
+                stages::replay_pi::<f32>(gets(&m, "file", ""), fr, off, ax, dc)
             } else {
-                stages::replay_pi::<f64>(gets(&m, "file", ""), fr, off, ax)
+                stages::replay_pi::<f64>(gets(&m, "file", ""), fr, off, ax, dc)
             }
         }
         "splay-replay" => splay::replay_graph(gets(&m, "graph", "")),
